@@ -174,7 +174,7 @@ Print Assumptions C18_open_succeeds.
    records (base = where the content starts in the stream) *)
 Theorem C18_points_follow : forall t h n base, st_h t = Some h -> h_mode h = MR -> h_ps h = PNone -> h_read h = 0 ->
   let f := h_file h in
-  s_pos (st_s t) = base + f_offset f -> 0 < f_count f -> 0 <= f_psize f -> base + f_offset f + f_count f * f_psize f <= f_size f ->
+  f_laz f = None -> s_pos (st_s t) = base + f_offset f -> 0 < f_count f -> 0 <= f_psize f -> base + f_offset f + f_count f * f_psize f <= f_size f ->
   let k := if n <? 0 then f_count f else Z.min n (f_count f) in
   snd (step t (EReadPoints n)) = RDone /\
   s_pos (st_s (fst (step t (EReadPoints n)))) = base + f_offset f + k * f_psize f.
@@ -185,7 +185,7 @@ Print Assumptions C18_points_follow.
    stream stays open (the handle is still there; C18_handle_gone / C18_read_las say what its end does) *)
 Theorem C18_torn_points_raise : forall t h base, st_h t = Some h -> h_mode h = MR -> h_ps h = PNone -> h_read h = 0 ->
   let f := h_file h in
-  s_pos (st_s t) = base + f_offset f -> 0 < f_count f -> 0 < f_psize f ->
+  f_laz f = None -> s_pos (st_s t) = base + f_offset f -> 0 < f_count f -> 0 < f_psize f ->
   base + f_offset f <= f_size f < base + f_offset f + f_count f * f_psize f ->
   (f_size f - (base + f_offset f)) mod f_psize f <> 0 ->
   snd (step t EReadAll) = RRaised XOther /\ snd (step t (EReadPoints (-1))) = RRaised XOther
@@ -196,7 +196,7 @@ Print Assumptions C18_torn_points_raise.
 (* EVLRs that cannot be decoded fail where they are loaded: at opening (closed iff closefd) when asked for on a stream
    that can seek, in read() - once the points are read - otherwise (the stream being one that can be asked) *)
 Theorem C18_bad_evlrs_fail_where_loaded : forall t cf re f, st_h t = None -> s_closed (st_s t) = false ->
-  f_evlr_bad f = true -> 4 <= f_minor f -> 0 < f_nevlrs f ->
+  f_evlr_bad f = true -> f_laz f = None -> 4 <= f_minor f -> 0 < f_nevlrs f ->
   query gen_read_evlrs_query (s_cap (st_s t)) <> None ->
   let r := step t (EOpen MR cf re f OOk) in
   if re && s_seekable (st_s t)
@@ -214,7 +214,7 @@ Print Assumptions C18_bad_evlrs_fail_where_loaded.
    `stream.seekable()` - preloading fails with AttributeError inside the try of open_las: the stream is closed iff
    closefd (C18_iff covers both; this says which of its cases such a source falls into) *)
 Theorem C18_read_only_source : forall t cf re f, st_h t = None -> s_closed (st_s t) = false -> s_cap (st_s t) = CapAbsent ->
-  f_evlr_bad f = false -> 4 <= f_minor f -> 0 < f_nevlrs f ->
+  f_evlr_bad f = false -> f_laz f = None -> 4 <= f_minor f -> 0 < f_nevlrs f ->
   let r := step t (EOpen MR cf re f OOk) in
   match gen_read_evlrs_query with
   | QGetattrFalse =>
@@ -232,6 +232,55 @@ Theorem C18_read_only_source : forall t cf re f, st_h t = None -> s_closed (st_s
 Proof. exact read_only_source. Qed.
 Print Assumptions C18_read_only_source.
 
+(* LAZ-FLAGGED FILES WHOSE POINT READER CANNOT BE BUILT (f_laz f = Some x: no backend selected / available - LaspyException -, or
+   the backend's constructor raises x). Every theorem above that quantifies over `f` includes them: the file opens for reading
+   (C18_open_succeeds: the point source is lazy, the header can be looked at), the stream stands at the first point record
+   (C18_position), and however the session ends the stream is closed iff closefd (C18_iff, C18_handle_gone, C18_read_las).
+   What the operations in between do: whatever needs the point source - read_points, read, seek, .point_source - raises x and
+   changes NOTHING: no point source is kept, the stream is open and stands where it stood, the handle still carries the
+   caller's closefd (a second attempt fails in the same way) *)
+Theorem C18_laz_unreadable : forall t h x, st_h t = Some h -> h_mode h = MR -> h_ps h = PNone ->
+  f_laz (h_file h) = Some x -> 0 <= h_read h < f_count (h_file h) ->
+  (forall n, step t (EReadPoints n) = (t, RRaised x)) /\ step t EReadAll = (t, RRaised x)
+  /\ step t EPointSource = (t, RRaised x)
+  /\ (forall pos wh pr idx, gen_seek (f_count (h_file h)) (h_read h) pos wh = Ok (pr, idx) -> step t (ESeek pos wh) = (t, RRaised x)).
+Proof. exact laz_unreadable. Qed.
+Print Assumptions C18_laz_unreadable.
+
+(* an appender refuses such a file while it is being constructed, inside the try of open_las: closed iff closefd *)
+Theorem C18_laz_append_refused : forall t cf re f x, st_h t = None -> s_closed (st_s t) = false -> s_seekable (st_s t) = true ->
+  f_laz f = Some x ->
+  let r := step t (EOpen MA cf re f OOk) in
+  snd r = RRaised gen_appender_laz_exn /\ st_h (fst r) = None /\ s_closed (st_s (fst r)) = cf.
+Proof. exact laz_append_refused. Qed.
+Print Assumptions C18_laz_append_refused.
+
+(* A WHOLE READ SESSION, after any history: an open for reading that gives a handle (any file: with or without points, EVLRs,
+   LAZ-flagged or not, torn, any offset_to_point_data), then ANY operations on the reader (reader_op: read_points, seek, read,
+   .point_source, an operation under which the stream fails) whatever each of them does - succeeds, fails on the content,
+   fails because the LAZ point reader cannot be built, fails because the stream did -, then the with statement is left
+   (normally or by an exception) or close() is called: the handle is gone and the stream is closed iff the caller said closefd *)
+Theorem C18_read_session : forall cap p evs cf re f o ops e h, is_end e = true -> forallb reader_op ops = true ->
+  st_h (run (init_at cap p) evs) = None ->
+  st_h (fst (step (run (init_at cap p) evs) (EOpen MR cf re f o))) = Some h ->
+  let t2 := run (init_at cap p) (evs ++ EOpen MR cf re f o :: ops) in
+  st_h (fst (step t2 e)) = None /\ s_closed (st_s (fst (step t2 e))) = cf.
+Proof. exact read_session. Qed.
+Print Assumptions C18_read_session.
+
+(* closing builds nothing: no close method reaches the point source through the lazy property (`self.point_source.close()` would
+   build it - for a LAZ-flagged file: try to, and raise - just to close it; Model/Ownership.v close_handle / close_exn say what
+   that would do). Hence leaving the with statement normally and calling close() succeed (the stream itself not failing), and
+   an exception of the with-body is the one that leaves the with statement: for every handle, whatever the file *)
+Theorem C18_close_builds_nothing : (forall m cf hp, existsb is_lazy (close_prog m cf hp true) = false) /\ forall h, close_exn h = None.
+Proof. exact (conj close_does_not_build close_never_raises_by_itself). Qed.
+Print Assumptions C18_close_builds_nothing.
+
+Theorem C18_ends_do_not_raise : forall t h, st_h t = Some h ->
+  snd (step t EExit) = RDone /\ snd (step t EClose) = RDone /\ forall x, snd (step t (EBodyRaises x)) = RRaised x.
+Proof. exact ends_do_not_raise. Qed.
+Print Assumptions C18_ends_do_not_raise.
+
 (* the exit C18_iff leaves out: mode w on a destination that answers no (or cannot answer) is refused before the try; the
    stream is untouched *)
 Theorem C18_w_nonseekable_untouched : forall t m cf re f o, st_h t = None ->
@@ -247,8 +296,13 @@ Print Assumptions C18_w_nonseekable_untouched.
    operation on a handle - read_points, seek, write_points .. - and what it calls never lets go of the stream) *)
 Theorem C18_skeleton_shapes :
   (forall m, gen_exit_closes m = true) /\ gen_point_source_lazy = true /\ gen_read_from_prefetch_then_evlrs = true
-  /\ gen_only_close_closes = true.
-Proof. exact (conj gen_exit_closes_all (conj eq_refl (conj eq_refl eq_refl))). Qed.
+  /\ gen_only_close_closes = true
+  /\ gen_prefetch_ops = [SRead 227; SReadToOffset]          (* the second read is not bounded: it reaches the first point record *)
+  /\ (forall count_pos, gen_point_source_kind count_pos true = if count_pos then PKBackend true else PKEmpty true).
+Proof.
+  refine (conj gen_exit_closes_all (conj eq_refl (conj eq_refl (conj eq_refl (conj eq_refl _))))).
+  intros [|]; reflexivity.
+Qed.
 Print Assumptions C18_skeleton_shapes.
 
 (* an empty 1.4 file with one EVLR, opened without preloading on a seekable stream with closefd: read() creates the
@@ -258,12 +312,15 @@ Print Assumptions C18_skeleton_shapes.
    the stream stays open (closefd=false); laspy.read with closefd on what is left (nothing) fails and closes;
    a source that offers only read(), handed over at byte 10: mode w refuses it before its try (closefd or not, it stays
    open), mode a fails inside its try (closefd=false: stays open), a reader takes it, reads the 5 records, cannot seek,
-   the with-body raises (closefd=false: open), laspy.read with closefd on the rest fails and closes *)
+   the with-body raises (closefd=false: open), laspy.read with closefd on the rest fails and closes;
+   a LAZ-flagged file whose point reader cannot be built; a file whose first point record lies beyond 227 + 1 MiB *)
 Example C18_nonvacuous :
-  let f0 := mkF 375 0 30 4 1 375 100 475 false in
-  let f1 := mkF 227 5 20 2 0 0 0 327 false in
-  let f2 := mkF 227 5 20 2 0 0 0 (64 + 310) false in     (* 64 bytes of something else first; the last record is cut *)
-  let f3 := mkF 227 5 20 2 0 0 0 (10 + 327) false in
+  let f0 := mkF 375 0 30 4 1 375 100 475 false None in
+  let f1 := mkF 227 5 20 2 0 0 0 327 false None in
+  let f2 := mkF 227 5 20 2 0 0 0 (64 + 310) false None in     (* 64 bytes of something else first; the last record is cut *)
+  let f3 := mkF 227 5 20 2 0 0 0 (10 + 327) false None in
+  let f4 := mkF 281 5 20 2 0 0 0 381 false (Some XLaspy) in   (* LAZ-flagged, no backend: building the point reader raises LaspyException *)
+  let f5 := mkF 1048804 3 20 2 0 0 0 (64 + 1048804 + 60) false None in   (* the first point record is 227 + 1 MiB + 1 into the content *)
   (map (fun '(r, t) => (r, s_closed (st_s t), s_pos (st_s t), match st_h t with Some h => Some (h_ps h) | None => None end))
        (trace (init CapYes) [EOpen MR true false f0 OOk; EReadAll; EExit; EOpen MR true true f0 OOk]),
    map (fun '(r, t) => (r, s_closed (st_s t), s_pos (st_s t)))
@@ -286,7 +343,16 @@ Example C18_nonvacuous :
        (trace (init CapYes) [EOpen MW false true f1 OOk; EWrite; EOpFault XOther; EEndFault true 0 XOther;
                              EOpen MA true true f1 (OFault XLaspy)]),
    map (fun '(r, t) => (r, s_closed (st_s t)))
-       (trace (init CapNo) [EReadLasFault false f1 XOther; EReadLasFault true f1 XBase]))
+       (trace (init CapNo) [EReadLasFault false f1 XOther; EReadLasFault true f1 XBase]),
+   (* a LAZ-flagged file of 5 points whose point reader cannot be built, closefd: the open gives a handle and leaves the stream
+      at the first point record; read_points, .point_source, read(), seek raise and change nothing; the with-exit closes.
+      On another stream: an appender with closefd=false is refused (open), laspy.read with closefd fails and closes *)
+   map (fun '(r, t) => (r, s_closed (st_s t), s_pos (st_s t), match st_h t with Some h => Some (h_ps h) | None => None end))
+       (trace (init CapYes) [EOpen MR true true f4 OOk; EReadPoints 2; EPointSource; EReadAll; ESeek 1 0; EExit]),
+   map (fun '(r, t) => (r, s_closed (st_s t)))
+       (trace (init CapYes) [EOpen MA false true f4 OOk; EReadLas true f4 OOk]),
+   (* more than 227 + 1 MiB before the first point record, on a stream that cannot seek, handed over at byte 64 *)
+   map (fun '(r, t) => (r, s_pos (st_s t))) (trace (init_at CapNo 64) [EOpen MR false true f5 OOk; EReadPoints 1]))
   = ([(RDone, false, 375, Some PNone); (RDone, false, 375, Some (PNull true)); (RDone, true, 375, None); (RRaised XOther, true, 375, None)],
      [(RRaised XOther, true, 0)],
      [(RDone, false, 227); (RDone, false, 267); (RDone, false, 307); (RDone, false, 307); (RDone, false, 307); (RDone, false, 0); (RDone, true, 327)],
@@ -298,5 +364,9 @@ Example C18_nonvacuous :
      [(RDone, false, []); (RDone, false, []); (RRaised XOther, false, []);
       (RRaised XOther, false, [(HCloseFault, false, false)]);
       (RRaised XLaspy, true, [(HCloseFault, false, false); (HFailedOpen, true, true)])],
-     [(RRaised XOther, false); (RRaised XBase, true)]).
+     [(RRaised XOther, false); (RRaised XBase, true)],
+     [(RDone, false, 281, Some PNone); (RRaised XLaspy, false, 281, Some PNone); (RRaised XLaspy, false, 281, Some PNone);
+      (RRaised XLaspy, false, 281, Some PNone); (RRaised XLaspy, false, 281, Some PNone); (RDone, true, 281, None)],
+     [(RRaised XLaspy, false); (RRaised XLaspy, true)],
+     [(RDone, 64 + 1048804); (RDone, 64 + 1048804 + 20)]).
 Proof. vm_compute. reflexivity. Qed.
